@@ -37,7 +37,13 @@ class C07(Prop):
                "(Mk.Ext); in the correspondence their answers for the atoms at hand are computed on the real code and passed as data",
                "ast.literal_eval of a QUOTED_STRING token as modelled by Mk.pyStrLit (escape decoding; \\N{...} not modelled)",
                "CPython re: leftmost alternative / backtracking order and \\b as modelled by Mk.matchFin (word table measured)"]
-    partial = []
+    partial = ["character-level lexing of arbitrary layouts (white space, quote style, PEP 345 spellings) is tied by the "
+               "correspondence check (mk.eval on rendered layouts, mk.match on rule x position), not proved; the precedence / "
+               "grouping theorem parse_precedence is proved for the same recursive-descent functions run on token sequences",
+               "comparisons of two variables or of two literals are outside the statement; the model mirrors what the code does "
+               "with them (correspondence only), the refinement theorems assume one variable per comparison",
+               "recursion depth: the model's fuel is linear in the input length; CPython's RecursionError on ~330 nested "
+               "parentheses is not modelled (not generated)"]
     budget = {"quick": (3000, 2500), "thorough": (60000, 50000)}
 
     # ---- correspondence
